@@ -1,37 +1,26 @@
 package internal
 
 import (
-	"bufio"
 	"bytes"
 	"fmt"
 	"os/exec"
 	"strings"
 )
 
+// NVRAM returns the given variables as name=value strings. Each value is
+// read with "nvram get" so that values spanning several lines are returned in
+// full and unset variables are returned as "name=" (SetNVRAM unsets those).
 func NVRAM(names ...string) ([]string, error) {
 	if len(names) == 0 {
 		return nil, nil
 	}
-	out, err := nvram("show")
-	if err != nil {
-		return nil, err
-	}
-	s := bufio.NewScanner(strings.NewReader(out))
-	names = append([]string{}, names...)
-	for i := range names {
-		names[i] += "="
-	}
 	var vars []string
-	for s.Scan() {
-		v := s.Text()
-		for _, n := range names {
-			if strings.HasPrefix(v, n) {
-				vars = append(vars, v)
-			}
+	for _, n := range names {
+		out, err := nvramOutput("get", n)
+		if err != nil {
+			return nil, err
 		}
-	}
-	if err := s.Err(); err != nil {
-		return nil, err
+		vars = append(vars, n+"="+strings.TrimSuffix(out, "\n"))
 	}
 	return vars, nil
 }
@@ -54,6 +43,11 @@ func SetNVRAM(vars ...string) error {
 }
 
 func nvram(args ...string) (string, error) {
+	out, err := nvramOutput(args...)
+	return strings.TrimSpace(out), err
+}
+
+func nvramOutput(args ...string) (string, error) {
 	cmd := exec.Command("nvram", args...)
 	var stdout, stderr bytes.Buffer
 	cmd.Stdout = &stdout
@@ -62,5 +56,5 @@ func nvram(args ...string) (string, error) {
 		errDesc := stderr.String()
 		return "", fmt.Errorf("nvram %s: %w: %s", strings.Join(args, " "), err, errDesc)
 	}
-	return strings.TrimSpace(stdout.String()), nil
+	return stdout.String(), nil
 }
